@@ -38,7 +38,7 @@ def build(ctx):
     r = ctx.repo
     srcs = [os.path.join(vlib.VERIF, "harness", "lex_h.c")]
     srcs += [os.path.join(r, "src/powerman", f) for f in
-             ("parse_lex.c", "parse_util.c", "pluglist.c", "device.c", "device_tcp.c", "device_pipe.c", "device_serial.c", "arglist.c", "debug.c")]
+             ("parse_lex.c", "device.c", "device_tcp.c", "device_pipe.c", "device_serial.c", "arglist.c", "debug.c")]   # parse_tab.c, pluglist.c, parse_util.c are #included by lex_h.c
     srcs += sorted(glob.glob(os.path.join(r, "src/libcommon/*.c"))) + sorted(glob.glob(os.path.join(r, "src/liblsd/*.c")))
     impl = ctx.cc_parallel(srcs, "lex_h", extra=["-fsanitize=float-cast-overflow"], link_extra=["-Wl,--wrap=getaddrinfo,--wrap=execv"])
     model = ctx.ocaml_driver("lex_model", "lexmodel", "lex_drv.ml")
@@ -614,14 +614,21 @@ def evaluate(ctx, impl, model, codes, msgs, oracle, cases, want_tokens=True):
     return res
 
 
-def model_class(m):
+def model_class(m, stale=False):
+    """class of the model's run; stale=True: the run in which errno holds a stale ERANGE at every strtol conversion"""
     if m is None or "class" not in m:
         return "model-error:" + (m or {}).get("error", "lost")
-    if m["class"] == "ok":
-        return "ok" if m["mand"] == "1" else "bad"
-    if m["class"] == "exit":
-        return "exit+line" if m["line"] == "1" else "exit"
+    p = "e" if stale else ""
+    if m[p + "class"] == "ok":
+        return "ok" if m[p + "mand"] == "1" else "bad"
+    if m[p + "class"] == "exit":
+        return "exit+line" if m[p + "line"] == "1" else "exit"
     return "bad"
+
+
+def errno_dependent(m):
+    """the two answers of the stale-errno oracle give different observable classes (F30 not applied)"""
+    return m is not None and "eclass" in m and model_class(m) != model_class(m, True)
 
 
 def impl_tokens(lex, codes):
@@ -647,6 +654,8 @@ def compare(r, codes, msgs):
     if outside_abstraction(r):
         return None
     ic, mc = impl_class(r["conf"], msgs), model_class(r["mconf"])
+    if ic != mc and errno_dependent(r["mconf"]) and ic == model_class(r["mconf"], True):
+        return None      # the implementation took the other branch of the environment oracle (stale errno)
     if ic != mc:
         return ("R-LEX.class", "implementation=%s (st=%s stage=%s err=%r) model=%s (%s)" % (
             ic, r["conf"] and r["conf"]["st"], r["conf"] and r["conf"]["stage"], r["conf"] and r["conf"]["err"][:160], mc, r["mconf"]))
@@ -764,6 +773,9 @@ def run(ctx, V):
             V.count("impl:" + impl_class(r["conf"], msgs))
             if r["mconf"] is not None and "site" in r["mconf"]:
                 V.count("model-site:%s/%s" % (r["mconf"]["class"], r["mconf"]["site"]))
+            if errno_dependent(r["mconf"]):
+                V.count("errno-dependent")
+                V.count("errno-dependent:impl-took-" + ("stale" if impl_class(r["conf"], msgs) == model_class(r["mconf"], True) else "fresh"))
             if len(V.samples) < 6 and c["tag"].startswith(("mut:", "include", "stmt")) and sum(len(d) for _, d in c["files"]) < 700:
                 V.sample(dict(tag=c["tag"], files=show(c), implementation=impl_class(r["conf"], msgs), model=model_class(r["mconf"])))
             m = monitor(r["conf"])
@@ -795,7 +807,8 @@ def run(ctx, V):
         "environment oracles of the model (host-range expansion = hostlist.c, regcomp, getaddrinfo restricted to numeric hosts/services by the harness, stat) are answered by the real functions",
         "bison's own stack limit (YYMAXDEPTH 10000: `memory exhausted` -> parse error) and exhaustion of file descriptors by > ~1000 include directives (the included FILE is never fclose()d) are outside the model; both end in exit 1 with a diagnostic",
         "cli_start (binding the listen addresses) is not run by the harness; a bad `listen` string makes powermand exit with a diagnostic there",
-        "the values stored in struct timeval (IEEE rounding of strtod) are not modelled; only the accept/refuse behaviour of _strtolong/_strtodouble is (errno is cleared before strtol/strtod since fix F30: without it an exact LONG_MAX match position is refused after an earlier strtod underflow)",
+        "the values stored in struct timeval (IEEE rounding of strtod) are not modelled; only the accept/refuse behaviour of _strtolong/_strtodouble is",
+        "errno at the strtol conversions (F30 not applied: _strtolong tests `errno == ERANGE` without clearing errno, so after an earlier strtod underflow the exact values LONG_MAX / LONG_MIN are refused with a diagnostic) is an environment oracle of the model; the theorems hold for every oracle, the driver evaluates the model under both constant answers and the comparator accepts the implementation when it equals either (cases counted as `errno-dependent`); GenLex.errno_cleared_strtol makes the oracle irrelevant once `errno = 0;` precedes the call",
     ]
 
 
@@ -817,7 +830,7 @@ def replay(ctx, V, path):
     print("implementation conf_init:", {k: (v if k != "err" else v[:500]) for k, v in (r["conf"] or {}).items()})
     print("implementation tokens   :", impl_tokens(r["lex"], codes)[:60])
     print("model tokens            :", r["mlex"])
-    print("model conf_init         :", r["mconf"])
+    print("model conf_init         :", r["mconf"], "(e* = with a stale ERANGE in errno at every strtol)")
     m = monitor(r["conf"])
     c = compare(r, codes, msgs)
     print("monitor:", m if m else "property holds on this case")
